@@ -9,6 +9,7 @@ import (
 func init() {
 	vfRegister("VF_C07_cycles", VF_C07_cycles)
 	vfRegister("VF_C07_params", VF_C07_params)
+	vfRegister("VF_C07_own_tag", VF_C07_own_tag)
 	vfRegister("VF_C05_scopes", VF_C05_scopes)
 }
 
@@ -217,6 +218,29 @@ func VF_C07_cycles() {
 		vfAssert(len(grouperror.Collection(err)) >= 1, "at least one cycle is reported")
 	}
 	vfReach("C07_cycles")
+}
+
+// VF_C07_own_tag: the shapes the quick form of VF_C07_cycles leaves out: a
+// service that requests a tag it may carry itself, next to another carrier
+// that may refer back.
+func VF_C07_own_tag() {
+	g := vfMakeGraphS(vfShape{nsvc: 2, tags: []bool{true, true}, refS: []bool{false, true}, refT: []bool{true, false},
+		refP: []bool{false, false}})
+	err := ValidateCircularDeps(g.o)
+	r := g.closure()
+	cyclic := false
+	for i := range r {
+		cyclic = vfOr(cyclic, r[i][i])
+	}
+	vfAssert((err != nil) == cyclic, "rejected for circular dependencies iff the dependency relation is cyclic (own tag)")
+	if err != nil {
+		for i, n := range g.svc {
+			if r[i][i] {
+				vfAssert(strings.Contains(err.Error(), "@"+n), "the report shows a cycle through each service lying on one")
+			}
+		}
+	}
+	vfReach("C07_own_tag")
 }
 
 // VF_C07_params: the same with parameter edges (%param% from parameters,
